@@ -107,4 +107,99 @@ def big (g : Graph) : Nat → Task → Mem → BRes
       | .ok x m' => big g f (.reqs n rest (x :: acc)) m'
       | r => r
 
+
+/-! ### one-level unfoldings (the fuel of the recursive calls stays a variable) -/
+
+theorem big_hash (g : Graph) (f n : Nat) (m : Mem) : big g (f + 1) (.hash n) m =
+    match m.hashes.memo n with
+    | some x => .ok x m
+    | none =>
+      match (g.node n).edge with
+      | none => .raised .internal m
+      | some e =>
+        match big g f (.prog n (e.hashProg (g.parents n).length)) m with
+        | .ok x m' =>
+          match m'.hashes.memo n with
+          | some _ => .raised .internal m'
+          | none =>
+            match m'.hashes.set n x with
+            | none => .raised .internal m'
+            | some h => .ok x { m' with hashes := h }
+        | r => r := by
+  simp only [big]
+
+theorem big_value (g : Graph) (f n : Nat) (m : Mem) : big g (f + 1) (.value n) m =
+    match m.cache.memo n with
+    | some v => .ok (.val v) m
+    | none =>
+      match (g.node n).edge with
+      | none => .raised .internal m
+      | some e =>
+        match big g f (.prog n (e.evalProg (g.parents n).length)) m with
+        | .ok (.val v) m' =>
+          match m'.cache.memo n with
+          | some _ => .raised .internal m'
+          | none =>
+            match m'.cache.set n v with
+            | none => .raised .internal m'
+            | some c => .ok (.val v) { m' with cache := c }
+        | .ok _ m' => .raised .internal m'
+        | r => r := by
+  simp only [big]
+
+theorem big_prog (g : Graph) (f n : Nat) (p : Prog) (m : Mem) : big g (f + 1) (.prog n p) m =
+    match runEffs p m.world with
+    | (.ret x, w) =>
+      match evictAll (g.parents n) m.hashes m.cache with
+      | none => .raised .internal { m with world := w }
+      | some (h, c) => .ok x { hashes := h, cache := c, world := w }
+    | (.raise e, w) => .raised e { m with world := w }
+    | (.req r k, w) =>
+      match big g f (.req n r) { m with world := w } with
+      | .ok x m' => big g f (.prog n (k x)) m'
+      | r => r
+    | (.eff _ _, w) => .raised .internal { m with world := w } := by
+  simp only [big]
+
+theorem big_req (g : Graph) (f n : Nat) (r : Req) (m : Mem) : big g (f + 1) (.req n r) m =
+    match r with
+    | .parentHash i =>
+      match (g.parents n)[i]? with
+      | none => .raised .internal m
+      | some p =>
+        match big g f (.hash p) m with
+        | .ok (.hout h _) m' => .ok (.hash h) m'
+        | .ok _ m' => .raised .internal m'
+        | r => r
+    | .parentValue i =>
+      match (g.parents n)[i]? with
+      | none => .raised .internal m
+      | some p => big g f (.value p) m
+    | .currentHash =>
+      match big g f (.hash n) m with
+      | .ok (.hout h _) m' => .ok (.hash h) m'
+      | .ok _ m' => .raised .internal m'
+      | r => r
+    | .payload =>
+      match big g f (.hash n) m with
+      | .ok (.hout _ p) m' => .ok (.val p) m'
+      | .ok _ m' => .raised .internal m'
+      | r => r
+    | .await rs => big g f (.reqs n rs.reverse []) m
+    | .call fn pos kwn kwv =>
+      match m.world.call n fn pos kwn kwv with
+      | (.ok v, w) => .ok (.val v) { m with world := w }
+      | (.error e, w) => .raised e { m with world := w } := by
+  cases r <;> simp only [big]
+
+theorem big_reqs (g : Graph) (f n : Nat) (rsRev : List Req) (acc : List Item) (m : Mem) :
+    big g (f + 1) (.reqs n rsRev acc) m =
+    match rsRev with
+    | [] => .ok (.tup acc) m
+    | r :: rest =>
+      match big g f (.req n r) m with
+      | .ok x m' => big g f (.reqs n rest (x :: acc)) m'
+      | r => r := by
+  cases rsRev <;> simp only [big]
+
 end CM
